@@ -197,3 +197,74 @@ pub fn dump_lines(tap: &tapx::Tap, run: &PairRun) {
         println!("stats {}: {:?} poisoned={}", s.name(), st, p);
     }
 }
+
+// ------------------------------------------------------------ C20: operations interleaved inside the connection's poll
+
+/// The PAIR programs again, with a fourth tape deciding at which transport
+/// callbacks (read / write / flush / shutdown, i.e. inside `Connection::poll`
+/// where the library has released its locks) a runnable application task is
+/// polled on the spot — exactly what a thread running in parallel could do
+/// there. Every oracle of the sequential engines must still hold.
+pub struct NestEngine {
+    pub focus: Focus,
+}
+
+fn known() -> &'static crate::runner::Known {
+    static K: std::sync::OnceLock<crate::runner::Known> = std::sync::OnceLock::new();
+    K.get_or_init(|| crate::runner::Known::load(&std::path::PathBuf::from(std::env::var("VERIF_ROOT").unwrap_or_else(|_| "/verif".into()))))
+}
+
+impl Engine for NestEngine {
+    type Case = PairCase;
+    fn name(&self) -> &'static str {
+        match self.focus {
+            Focus::Coop => "nest-coop",
+            Focus::Resets => "nest-resets",
+            Focus::Faults => "nest-faults",
+        }
+    }
+    fn tape_lens(&self) -> Vec<usize> {
+        vec![600, 401, 302, 400]
+    }
+    fn gen(&self, tapes: &[Vec<u32>]) -> PairCase {
+        let mut c = gen_pair(&tapes[..3], self.focus);
+        c.nest = tapes[3].clone();
+        if c.nest.is_empty() {
+            c.nest = vec![0; 8];
+        }
+        c
+    }
+    fn rule(&self) -> String {
+        "the generated h2 client ↔ h2 server programs of the sequential engines, with an extra tape that at transport callbacks inside a connection's poll (read, write, flush, shutdown: the points where the connection has released its locks) polls a runnable application task right there — request, send-stream, receive-stream, flow-control, ping and handle-drop operations then happen in the middle of the connection's progress, as from a parallel thread; oracle: the connection holds no lock at any such callback, no lock is poisoned, nothing panics or deadlocks, and every sequential oracle (C01 delivery, C02/C03 flow control, C04 state machine, C05 concurrency, C06 progress, C07 wake-ups, C12/C10 wire, C17 resets, C19 release) still holds on the resulting trace; non-trivial = at least 3 nested polls that performed an API operation inside a connection poll".into()
+    }
+    fn shrink_iters(&self) -> u32 {
+        600
+    }
+    fn run(&self, case: &PairCase) -> Outcome {
+        let run = run_pair(case);
+        let base = evaluate_pair(case, &run, self.focus);
+        let mut out = Outcome::default();
+        out.labels = base.labels.clone();
+        out.note = format!("{} nested polls; {}", run.nested, base.note);
+        out.nontrivial = run.nested >= 3;
+        out.label(match run.nested {
+            0 => "nested:0",
+            1..=2 => "nested:1-2",
+            3..=9 => "nested:3-9",
+            10..=49 => "nested:10-49",
+            _ => "nested:50+",
+        });
+        for l in &run.lock_held {
+            out.fail("C20", "locks/held-at-transport-callback", format!("C20/lock-held-at-transport-callback/{}", l), format!("at a transport callback ({}) inside the connection's poll one of the library's locks was still held: a handle operation on another thread blocks there for the duration of the I/O (and would deadlock if the transport needed that thread)", l));
+        }
+        // a violation that is a recorded finding of its own property shadows the case
+        if base.violations.iter().any(|v| known().matches(v).is_some()) {
+            out.label("known-finding-of-sequential-property");
+            return out;
+        }
+        for v in &base.violations {
+            out.fail("C20", &v.oracle, format!("C20/interleaved/{}", v.signature), format!("with {} application polls interleaved inside connection polls: {}", run.nested, v.detail));
+        }
+        out
+    }
+}
